@@ -579,6 +579,39 @@ class Case:
         self.exp.append(None)
         self.tags["buffer-grown"] += 1
 
+    def op_derive(self, ci=None, front=None):
+        """ANOTHER hybrid class is defined whose field table is derived from an existing class' `_xofields` (the usual
+        `{**Base._xofields, "extra": ...}` idiom) with one more dynamic field, i.e. another layout; an object of it is built and read.
+        Nothing was done to the existing objects: the Mirror oracle runs on all of them afterwards (the model has no class
+        definitions: the line is recorded for the replay)."""
+        xo = common.import_xobjects()
+        ci = self.r.choice(self.U.leaflike) if ci is None else ci
+        front = (self.r.random() < 0.5) if front is None else front
+        base = self.U.classes[ci]
+        self.ops.append(f"derive {ci} {int(front)}")
+        self.exp.append(None)
+        self.last_target = None
+        try:
+            table = dict(base._xofields)
+            table = {"zz_extra": xo.Float64[:], **table} if front else {**table, "zz_extra": xo.Float64[:]}
+            d = {"_xofields": table}
+            if self.U.spec[ci][1]:
+                d["_rename"] = dict(self.U.spec[ci][1])
+            Ext = type(f"HExt{next(_uid)}", (xo.HybridClass,), d)
+            e = Ext(a=11, v=-12, mat=[[1.0, 2.0], [3.0, 4.0]], name="derived", arr=[5.0, 6.0, 7.0], brr=[8], zz_extra=[9.0, 10.0],
+                    _buffer=self.bufs[0])
+            x = e._xobject
+            got = (int(x.a), int(x.v), [float(q) for q in x.arr.to_nparray()], [int(q) for q in x.brr.to_nparray()],
+                   [float(q) for q in x.zz_extra.to_nparray()], str(x.name))
+            want = (11, -12, [5.0, 6.0, 7.0], [8], [9.0, 10.0], "derived")
+            att = (int(getattr(e, self.U.pyname(ci, "a"))), int(getattr(e, self.U.pyname(ci, "v"))), [float(q) for q in e.arr],
+                   [int(q) for q in e.brr], [float(q) for q in e.zz_extra], str(e.name))
+            if got != want or att != want:
+                self.fail("C18:derived-class-object", f"object of a class derived from the field table of class {ci}: buffer {got}, attributes {att}, given {want}")
+            self.tags["derive.ok"] += 1
+        except Exception as ex:
+            self.fail("C18:derive-raises:" + type(ex).__name__, f"class derived from the field table of class {ci} (extra field {'first' if front else 'last'}): {str(ex)[:160]}")
+
     # ------------------------------------------------------------------ oracle
     def values(self, obj, depth=0):
         """value of a hybrid instance through its ATTRIBUTES (numbers, nested values; references as the referent's value)"""
@@ -900,6 +933,8 @@ def replay_ops(ops, fails, tags):
                 c.op_str(target=w[1], text="" if w[2] == "-" else bytes.fromhex(w[2]).decode("utf-8"))
             elif w[0] == "arr":
                 c.op_arr(target=w[1], vals=[] if w[2] == "-" else [float(x) for x in w[2].split(",")])
+            elif w[0] == "derive":
+                c.op_derive(ci=int(w[1]), front=bool(int(w[2])))
             elif w[0] == "pad":
                 c.bufs[int(w[1])].allocate(int(w[2]))
                 c.ops.append(line)
@@ -1109,12 +1144,33 @@ def corpus_history7(r, fails, tags):
     return c
 
 
+def corpus_history8(r, fails, tags):
+    """objects of a class exist; another class is defined from `{**Class._xofields, extra}` (extra dynamic field last / first):
+    the existing objects, and new objects of the first class, still mirror their data"""
+    c = Case(r, fails, tags, force={"k1": "N", "k1b": None, "k2": "N", "k3": "N"})
+    c.op_new(ci=0, bi=0)
+    if "H1" in c.handles and c.check_mirror(c.ops[-1]):
+        for name, kw in [("op_derive", dict(ci=0, front=False)), ("op_arr", dict(target="H1")), ("op_new", dict(ci=0, bi=0)),
+                         ("op_derive", dict(ci=0, front=True)), ("op_str", dict(target="H1")), ("op_new", dict(ci=1, bi=0)),
+                         ("op_derive", dict(ci=3, front=False)), ("op_new", dict(ci=3, bi=1))]:
+            before = len(c.ops)
+            c.last_target = None
+            c.last_field = None
+            try:
+                getattr(c, name)(**kw)
+            except KeyError:
+                break
+            if len(c.ops) > before and not c.check_mirror(c.ops[-1]):
+                break
+    return c
+
+
 def run_history(r, fails, tags, n_ops):
     c = Case(r, fails, tags)
     c.op_new(0)
     c.op_new(0)
     for _ in range(n_ops):
-        k = r.choice(["new", "new", "get", "get", "set", "set", "set", "set", "alias", "copy", "move", "py", "str", "arr", "arr", "growbuf"])
+        k = r.choice(["new", "new", "get", "get", "set", "set", "set", "set", "alias", "copy", "move", "py", "str", "arr", "arr", "growbuf", "derive"])
         before = len(c.ops)
         c.last_target = None
         c.last_field = None
@@ -1131,7 +1187,7 @@ def run_all(tier, seed, extra=None):
     n_hist = {"quick": 40, "thorough": 6000}[tier]
     cases, expects, ctxs = [], [], []
     for hi in range(n_hist):
-        c = corpus_history(r, fails, tags) if hi == 0 else corpus_history2(r, fails, tags) if hi == 1 else corpus_history3(r, fails, tags) if hi == 2 else corpus_history4(r, fails, tags) if hi == 3 else corpus_history5(r, fails, tags) if hi == 4 else corpus_history6(r, fails, tags) if hi == 5 else corpus_history7(r, fails, tags) if hi == 6 else run_history(r, fails, tags, r.choice([8, 14, 24]))
+        c = corpus_history(r, fails, tags) if hi == 0 else corpus_history2(r, fails, tags) if hi == 1 else corpus_history3(r, fails, tags) if hi == 2 else corpus_history4(r, fails, tags) if hi == 3 else corpus_history5(r, fails, tags) if hi == 4 else corpus_history6(r, fails, tags) if hi == 5 else corpus_history7(r, fails, tags) if hi == 6 else corpus_history8(r, fails, tags) if hi == 7 else run_history(r, fails, tags, r.choice([8, 14, 24]))
         if extra:
             extra(c, r)
         cases.append(c.ops)
